@@ -648,7 +648,11 @@ impl expr::Expr
 						let right = propagate!(
 							right_expr.eval_with_ctx(report, ctx, provider)?);
 
-						let left_usize = left.expect_usize(report, span)? + 1;
+						let left_usize = match left.expect_usize(report, span)?.checked_add(1)
+						{
+							Some(left_usize) => left_usize,
+							None => return Err(report.error_span("value is out of supported range", span)),
+						};
 						let right_usize = right.expect_usize(report, span)?;
 
 						Ok(expr::Value::make_integer(
